@@ -553,6 +553,15 @@ fn run(c: &Case, oracle: &mut Vec<String>) -> String {
             if s1 != s2 {
                 oracle.push(format!("chunk iterators disagree: stream={} slice={}", &s1[..s1.len().min(80)], &s2[..s2.len().min(80)]));
             }
+            // C06: a third argument `1` says the bytes are a PROPER PREFIX of a valid part: the chunk iterators must
+            // not end without an error
+            if a.get(2) == Some(&"1") {
+                for (which, s) in [("stream", &s1), ("slice", &s2)] {
+                    if s.ends_with("|OK") {
+                        oracle.push(format!("the {} chunk iterator ends without error on a proper prefix of a valid part", which));
+                    }
+                }
+            }
             if a[0] == "slice" { s2 } else { s1 }
         }
         "raw" => raw_items(&unhex(a[1]).unwrap(), a[0] == "slice"),
@@ -1013,6 +1022,24 @@ fn gen(prop: &str, tier: &str, seed: u64) -> Vec<String> {
                 v.push(format!("trunc\t{}\t{}\t{}", rds[n % 2], hex(b), n));
                 if thorough || n % 7 == 0 {
                     v.push(format!("trunc\t{}\t{}\t{}", rds[(n + 1) % 2], hex(b), n));
+                }
+            }
+        }
+        // the raw chunk iterators (read_as_chunks, read_chunks_from_slice) on proper prefixes of single archives and of
+        // every part of the part sets (non-final parts end with ANXT AEND): every cut in the last 40 bytes and at and
+        // around every chunk boundary, every third byte elsewhere (seeded C06-6: an iterator that stops at ANXT)
+        {
+            let mut pool: Vec<Vec<u8>> = samples.iter().filter(|(_, b)| b.len() <= 1500).map(|(_, b)| b.clone()).collect();
+            pool.extend(sample_parts());
+            pool.extend(sample_parts_api(120));
+            for b in pool {
+                let bounds: Vec<usize> = scan(&b).map(|cs| cs.iter().map(|(o, _, _)| *o).collect()).unwrap_or_default();
+                for n in 0..b.len() {
+                    let near = bounds.iter().any(|x| n + 1 >= *x && n <= x + 8) || n + 40 >= b.len();
+                    if !thorough && !near && n % 3 != 0 {
+                        continue;
+                    }
+                    v.push(format!("chunks\t{}\t{}\t1", rds[n % 2], hex(&b[..n])));
                 }
             }
         }
